@@ -96,6 +96,10 @@ def selfcheck(seed=0, wide=300):
     r4 = range(-8, 8)
     n += check_pairs(-8, 7, -8, 7, list(itertools.product(r4, r4)))
     n += check_pairs(0, 15, 0, 7, list(itertools.product(range(16), range(8))))
+    n += check_pairs(-1, 0, 0, 1, [(-1, 0), (-1, 1), (0, 0), (0, 1)])
+    n += check_pairs(0, 1, -1, 0, [(0, -1), (1, -1), (0, 0), (1, 0)])
+    n += check_pairs(0, 1, 0, 1, [(0, 0), (1, 1), (0, 1), (1, 0)])
+    n += check_pairs(-2, 1, 0, 2, list(itertools.product(range(-2, 2), range(0, 3))))
     n += check_unary(-8, 7, list(r4))
     n += check_unary(0, 15, list(range(16)))
     # wide
